@@ -87,6 +87,8 @@ func runC07(c *Ctx) {
 	c07NoBodyStatuses(c)
 	c.Rule("C07.O16", "E4", "all four forms of a request target reach OnURL (origin-, asterisk-, absolute- and authority-form; net/http accepts them all): the start of the target in statePathBefore is not restricted to '/' and '*'; and the request's Host is the target's host when the target names one, the Host field otherwise", 2)
 	c07TargetForms(c)
+	c.Rule("C07.O17", "E5,E4", "the answer to a HEAD request ends at its head: the client records the request's method when it queues the request, the record reaches the parser's no-body decision, and the records are consumed in request order", 3)
+	c07HeadResponses(c)
 	c.Rule("C07.O4", "E8", "request.Close: major<1 -> true; 1.0 -> hasClose || !keepAlive; else hasClose, with hasClose / keepAlive set by the Connection values \"close\" / \"keep-alive\"", 1)
 
 	// ------------------------------------------------------------------ O1
